@@ -469,8 +469,117 @@ pub fn run(ctx: &mut Ctx) {
     crate::checks::c02::label_oracle_into(ctx);
     // (d) the same faults through the language server: the published range must be the position of the label
     crate::checks::c02::lsp_range_oracle_into(ctx);
+    // (e) the same faults as the command line prints them, one declaration per file: every file that holds a label
+    // of a diagnostic has its own location block, and the block names a place where one of that file's labels starts
+    printed_locations_into(ctx);
     // description blocks: tokens and label positions are those of the text after a reference blanking
     crate::oscat::run_into(ctx, if ctx.tier.thorough() { 7 } else { 6 });
+}
+
+/// (path, text) of a world written one declaration per file into `dir`.
+fn one_file_per_declaration(w: &crate::world::World, dir: &std::path::Path) -> Vec<(String, String)> {
+    w.decls
+        .iter()
+        .enumerate()
+        .map(|(i, d)| {
+            // a comment line first (with a character of each UTF-8 width), so that offsets, lines and columns all differ from file to file
+            let text = format!("(* {} {} \u{e9}\u{20ac}\u{1F600} *)\n{}{}", i, "x".repeat(i * 3), " ".repeat(i), d.text());
+            (dir.join(format!("d{}_{}.st", i, d.name.to_lowercase())).to_string_lossy().to_string(), text)
+        })
+        .collect()
+}
+
+fn printed_location_problems(files: &[(String, String)], tmp: &std::path::Path, dir: &std::path::Path) -> Vec<(String, String)> {
+    use ironplcc::project::{FileBackedProject, Project};
+    let mut out = vec![];
+    for (p, t) in files {
+        std::fs::write(p, t).unwrap();
+    }
+    let mut proj = FileBackedProject::new();
+    for (p, t) in files {
+        proj.change_text_document(&front::fid(p), t.clone());
+    }
+    let diags = match crate::util::catch(|| proj.semantic()) {
+        Ok(Err(ds)) => ds,
+        Ok(Ok(())) => vec![],
+        Err(pn) => return vec![("semantic-panicked".into(), format!("Project::semantic panicked at {}", pn.loc))],
+    };
+    let run = crate::cli::run(&["check", dir.to_str().unwrap()], tmp, std::time::Duration::from_secs(30));
+    if run.crashed() {
+        return vec![("check-crashed".into(), run.summary())];
+    }
+    // 1-based line and column (in characters) of a byte offset
+    let place = |text: &str, off: usize| -> (u64, u64) {
+        let off = off.min(text.len());
+        let before = &text[..off];
+        let line = before.matches('\n').count() as u64 + 1;
+        let col = before.rsplit('\n').next().unwrap_or("").chars().count() as u64 + 1;
+        (line, col)
+    };
+    let mut printed: Vec<&crate::cli::CliDiag> = run.diags.iter().collect();
+    for d in &diags {
+        if d.code == "P9999" {
+            continue;
+        }
+        // labels per file
+        let mut per_file: std::collections::BTreeMap<String, Vec<(u64, u64)>> = Default::default();
+        for l in std::iter::once(&d.primary).chain(d.secondary.iter()) {
+            let f = l.file_id.to_string();
+            if let Some((_, text)) = files.iter().find(|(p, _)| *p == f) {
+                per_file.entry(f).or_default().push(place(text, l.location.start));
+            }
+        }
+        if per_file.is_empty() {
+            continue;
+        }
+        let pf = d.primary.file_id.to_string();
+        let Some(first) = per_file.get(&pf).map(|v| v[0]) else { continue };
+        // the printed diagnostic of this code whose first block is the primary label's place
+        let Some(k) = printed.iter().position(|c| c.code == d.code && c.at.as_ref().map(|a| a.0 == pf && (a.1, a.2) == first).unwrap_or(false)) else {
+            out.push((format!("{}/primary-label-not-printed-at-its-place", d.code), format!("{} has its primary label at {}:{}:{}; printed: {:?}", d.code, pf, first.0, first.1, run.diags.iter().filter(|c| c.code == d.code).map(|c| &c.all_at).collect::<Vec<_>>())));
+            continue;
+        };
+        let c = printed.remove(k);
+        let files_printed: std::collections::BTreeSet<&String> = c.all_at.iter().map(|a| &a.0).collect();
+        let files_labelled: std::collections::BTreeSet<&String> = per_file.keys().collect();
+        if files_printed != files_labelled {
+            out.push((format!("{}/files-of-the-printed-blocks-differ-from-files-of-the-labels", d.code), format!("{}: labels lie in {:?}, location blocks are printed for {:?}", d.code, files_labelled, files_printed)));
+            continue;
+        }
+        for (f, l, col) in &c.all_at {
+            if !per_file[f].contains(&(*l, *col)) {
+                out.push((format!("{}/block-names-no-label", d.code), format!("{}: the block {}:{}:{} is where no label of that file starts ({:?})", d.code, f, l, col, per_file[f])));
+            }
+        }
+    }
+    out
+}
+
+fn printed_locations_into(ctx: &mut Ctx) {
+    let ws: Vec<crate::world::World> = crate::checks::c02::worlds(1).into_iter().filter(|w| w.violated.len() == 1 && !w.labels.iter().any(|l| l.starts_with("site=") || l.starts_with("hostpos="))).collect();
+    let scratch = crate::util::Scratch::new("c05e");
+    let res: Vec<Vec<(String, String)>> = ws
+        .par_iter()
+        .enumerate()
+        .map(|(n, w)| {
+            let dir = scratch.sub(&format!("w{}", n));
+            let tmp = scratch.sub(&format!("t{}", n));
+            let files = one_file_per_declaration(w, &dir);
+            printed_location_problems(&files, &tmp, &dir)
+        })
+        .collect();
+    let mut n = 0u64;
+    for (w, probs) in ws.iter().zip(res.iter()) {
+        n += 1;
+        ctx.distinct(&format!("printed|{}", w.labels.join(",")));
+        for (k, what) in probs {
+            ctx.fail(&format!("printed-location/{}", k), &format!("[{}] {}", w.labels.join(","), what), json!({"mode":"printed-location","text":"","files": w.decls.iter().map(|d| d.text()).collect::<Vec<_>>(), "names": w.decls.iter().map(|d| d.name.clone()).collect::<Vec<_>>()}));
+        }
+    }
+    ctx.evaluations += n;
+    ctx.transitions += n;
+    ctx.traces += n;
+    ctx.bounds.insert("printed_locations".into(), json!(format!("{} single-fault worlds, one declaration per file, through `ironplcc check <directory>`", n)));
 }
 
 pub fn replay(case: &Value) -> Result<String, String> {
@@ -507,6 +616,24 @@ pub fn replay(case: &Value) -> Result<String, String> {
         }
         Some("world-label") => crate::checks::c02::replay_label(case),
         Some("lsp-range") => crate::checks::c02::replay_lsp_range(case),
+        Some("printed-location") => {
+            let scratch = crate::util::Scratch::new("c05er");
+            let (dir, tmp) = (scratch.sub("d"), scratch.sub("t"));
+            let names: Vec<String> = case["names"].as_array().ok_or("names")?.iter().map(|x| x.as_str().unwrap_or("").to_string()).collect();
+            let files: Vec<(String, String)> = case["files"]
+                .as_array()
+                .ok_or("files")?
+                .iter()
+                .enumerate()
+                .map(|(i, t)| (dir.join(format!("d{}_{}.st", i, names.get(i).cloned().unwrap_or_default().to_lowercase())).to_string_lossy().to_string(), format!("(* {} {} \u{e9}\u{20ac}\u{1F600} *)\n{}{}", i, "x".repeat(i * 3), " ".repeat(i), t.as_str().unwrap_or(""))))
+                .collect();
+            let p = printed_location_problems(&files, &tmp, &dir);
+            if p.is_empty() {
+                Ok("every labelled file has its location block at a label".into())
+            } else {
+                Err(format!("{:?}", p))
+            }
+        }
         _ => Err("unknown replay mode".into()),
     }
 }
